@@ -876,8 +876,8 @@ func (e *Engine) instantiate(hyps []*smt.Term, goal *smt.Term, skolems []*smt.Te
 				cl = append(cl, t)
 			}
 			sort.Slice(cl, func(i, j int) bool { return cl[i].ID < cl[j].ID })
-			if len(cl) > 400 {
-				cl = cl[:400]
+			if len(cl) > 160 {
+				cl = cl[:160]
 			}
 			for _, t := range cl {
 				in := c.Subst(q.Args[0], map[*smt.Term]*smt.Term{bv: t})
